@@ -102,12 +102,10 @@ func (e *engine) Meta() harness.Meta {
 
 var quals = []string{"", "", "", "before", "after", "around", "around"}
 
-func genOp(r *tape.Rand, arity int, nextID *int, wDef, wRem, wCall int, builtin bool) Op {
+func genOp(r *tape.Rand, arity int, nextID *int, wDef, wRem, wCall int, wk string) Op {
 	x := r.Intn(wDef + wRem + wCall)
-	nSpec, nArg := nClasses, nClasses
-	if builtin {
-		nSpec, nArg = len(builtinSpecs), len(builtinVals)
-	}
+	builtin := wk == "builtin"
+	nSpec, nArg := worldSize(wk)
 	spec := func() []int {
 		s := make([]int, arity)
 		for i := range s {
@@ -127,7 +125,7 @@ func genOp(r *tape.Rand, arity int, nextID *int, wDef, wRem, wCall int, builtin 
 	a := make([]int, arity)
 	for i := range a {
 		a[i] = r.Intn(nArg)
-		if r.Pct(6) && !builtin {
+		if r.Pct(6) && !builtin && wk != "lattice" {
 			a[i] = nClasses // nil: only a method specialized on t applies
 		}
 	}
@@ -227,8 +225,17 @@ func (e *engine) Generate(seed uint64, idx int, tier string, avoid []harness.Fin
 	r := tape.NewRand(tape.Mix(seed, uint64(idx)))
 	builtinOnce.Do(builtinInit)
 	c := Case{Arity: 1 + r.Intn(2), Salt: r.Uint64(), TapeSeed: r.Uint64()}
-	if r.Pct(25) {
+	if r.Pct(12) {
+		// three required arguments (seeded change C10-k2: a walk over the
+		// argument hierarchies that is exact for one and two arguments only)
+		c.Arity = 3
+	}
+	switch x := r.Intn(100); {
+	case x < 25:
 		c.World = "builtin"
+	case x < 40:
+		// classes with several direct superclasses (seeded change C10-k1)
+		c.World = "lattice"
 	}
 	ntasks := 1
 	if r.Pct(60) {
@@ -247,7 +254,7 @@ func (e *engine) Generate(seed uint64, idx int, tier string, avoid []harness.Fin
 	nextID := 0
 	c.Tasks = make([][]Op, ntasks)
 	for i := 0; i < n; i++ {
-		op := genOp(r, c.Arity, &nextID, wDef, wRem, wCall, c.World == "builtin")
+		op := genOp(r, c.Arity, &nextID, wDef, wRem, wCall, c.World)
 		if op.Up && c.World == "builtin" && avoidsTrig(avoid, "up-nonclass") && upNonClass(op) {
 			op.Up = false
 		}
@@ -297,6 +304,7 @@ var (
 )
 
 func builtinInit() {
+	latticeInit()
 	seen := map[string]bool{}
 	for _, src := range builtinVals {
 		v := lispsim.Read(src).Eval(slip.NewScope(), nil)
@@ -330,6 +338,78 @@ func rankIn(spec, arg int) int {
 		}
 	}
 	return -1
+}
+
+// The lattice world: user classes with several direct superclasses. The
+// class precedence list of each is asked of the running code (Hierarchy() of
+// an instance), as in the built-in world: C10 is about dispatch given the
+// precedence, not about how the precedence is computed.
+var latticeSupers = [][]int{{}, {0}, {0}, {1, 2}, {3}, {2, 1}}
+
+var latticeCPL [][]int // per class: indices of the classes in precedence order (t is implied last)
+
+func latticeName(sfx string, i int) string { return fmt.Sprintf("l%d%s", i, sfx) }
+
+func latticeDefs(sfx string) string {
+	var b strings.Builder
+	for i, sup := range latticeSupers {
+		var names []string
+		for _, j := range sup {
+			names = append(names, latticeName(sfx, j))
+		}
+		fmt.Fprintf(&b, "(defclass %s (%s) ())\n", latticeName(sfx, i), strings.Join(names, " "))
+	}
+	return b.String()
+}
+
+func latticeInit() {
+	sfx := lispsim.Suffix()
+	sc := slip.NewScope()
+	lispsim.Eval(lispsim.Read(latticeDefs(sfx)), sc)
+	for i := range latticeSupers {
+		v := lispsim.Read(fmt.Sprintf("(make-instance '%s)", latticeName(sfx, i))).Eval(sc, nil)
+		var cpl []int
+		for _, h := range v.Hierarchy() {
+			for j := range latticeSupers {
+				if string(h) == latticeName(sfx, j) {
+					cpl = append(cpl, j)
+				}
+			}
+		}
+		latticeCPL = append(latticeCPL, cpl)
+	}
+}
+
+// worldSize: number of specializers (t not counted) and of argument values.
+func worldSize(wk string) (nSpec, nArg int) {
+	switch wk {
+	case "builtin":
+		return len(builtinSpecs), len(builtinVals)
+	case "lattice":
+		return len(latticeSupers), len(latticeSupers)
+	}
+	return nClasses, nClasses
+}
+
+// rankW is the position of specializer spec in the class precedence list of
+// argument value arg in world wk; -1 if it is not in it.
+func rankW(wk string, spec, arg int) int {
+	switch wk {
+	case "builtin":
+		return rankIn(spec, arg)
+	case "lattice":
+		cpl := latticeCPL[arg]
+		if spec < 0 {
+			return len(cpl) + 1 // t comes last (standard-object lies in between)
+		}
+		for i, c := range cpl {
+			if c == spec {
+				return i
+			}
+		}
+		return -1
+	}
+	return rank(spec, arg)
 }
 
 // ---- reference dispatcher ----
@@ -413,7 +493,7 @@ type expect struct {
 	noPrimary bool // applicable daemons but no applicable primary: not judged
 }
 
-func dispatch(t table, args []int, builtin bool) expect {
+func dispatch(t table, args []int, wk string) expect {
 	type am struct {
 		m     method
 		ranks []int
@@ -423,11 +503,7 @@ func dispatch(t table, args []int, builtin bool) expect {
 		rs := make([]int, len(args))
 		ok := true
 		for i, a := range args {
-			if builtin {
-				rs[i] = rankIn(m.specs[i], a)
-			} else {
-				rs[i] = rank(m.specs[i], a)
-			}
+			rs[i] = rankW(wk, m.specs[i], a)
 			if rs[i] < 0 {
 				ok = false
 			}
@@ -502,7 +578,7 @@ type output struct {
 
 // step is the sequential specification used directly (1 routine) and as the
 // porcupine model (several routines).
-func step(state string, in Op, out output, builtin bool) (bool, string, string) {
+func step(state string, in Op, out output, wk string) (bool, string, string) {
 	t := parseTable(state)
 	switch in.K {
 	case "def":
@@ -524,7 +600,7 @@ func step(state string, in Op, out output, builtin bool) (bool, string, string) 
 		// removal is a no-op; either way the table is unchanged
 		return true, state, ""
 	}
-	ex := dispatch(t, in.Args, builtin)
+	ex := dispatch(t, in.Args, wk)
 	if in.K == "cam" {
 		// compute-applicable-methods: as many :around, :before and :after
 		// methods as are applicable, and a primary iff one is applicable
@@ -561,6 +637,7 @@ func step(state string, in Op, out output, builtin bool) (bool, string, string) 
 
 type world struct {
 	builtin bool
+	lattice bool
 	sfx     string
 	scope   *slip.Scope
 	gf      string
@@ -580,6 +657,9 @@ func (w *world) spec(i int) string {
 	}
 	if w.builtin {
 		return builtinSpecs[i]
+	}
+	if w.lattice {
+		return latticeName(w.sfx, i)
 	}
 	return className(w.sfx, i)
 }
@@ -612,28 +692,40 @@ func warmUp() {
 	lispsim.Eval(lispsim.Read(fmt.Sprintf("(%s %s %s)", w2.gf, w2.insts[0], w2.insts[1])), w2.scope)
 }
 
-func newWorld(arity int) *world {
+func newWorld(arity int, wk string) *world {
 	warm.Do(warmUp)
-	return newWorldRaw(arity)
+	return newWorldKind(arity, wk)
 }
 
-func newWorldRaw(arity int) *world {
-	w := &world{sfx: lispsim.Suffix(), scope: slip.NewScope()}
+func newWorldRaw(arity int) *world { return newWorldKind(arity, "") }
+
+func newWorldKind(arity int, wk string) *world {
+	w := &world{sfx: lispsim.Suffix(), scope: slip.NewScope(), builtin: wk == "builtin", lattice: wk == "lattice"}
 	w.gf = "gf" + w.sfx
 	var b strings.Builder
-	for i := 0; i < nClasses; i++ {
-		sup := ""
-		if i > 0 {
-			sup = className(w.sfx, i-1)
+	n := nClasses
+	if w.lattice {
+		n = len(latticeSupers)
+		b.WriteString(latticeDefs(w.sfx))
+	} else {
+		for i := 0; i < nClasses; i++ {
+			sup := ""
+			if i > 0 {
+				sup = className(w.sfx, i-1)
+			}
+			fmt.Fprintf(&b, "(defclass %s (%s) ())\n", className(w.sfx, i), sup)
 		}
-		fmt.Fprintf(&b, "(defclass %s (%s) ())\n", className(w.sfx, i), sup)
 	}
-	params := []string{"a", "b"}[:arity]
+	params := []string{"a", "b", "c"}[:arity]
 	fmt.Fprintf(&b, "(defgeneric %s (%s))\n", w.gf, strings.Join(params, " "))
-	for i := 0; i < nClasses; i++ {
+	for i := 0; i < n; i++ {
 		v := fmt.Sprintf("i%d%s", i, w.sfx)
 		w.insts = append(w.insts, v)
-		fmt.Fprintf(&b, "(defvar %s (make-instance '%s))\n", v, className(w.sfx, i))
+		cn := className(w.sfx, i)
+		if w.lattice {
+			cn = latticeName(w.sfx, i)
+		}
+		fmt.Fprintf(&b, "(defvar %s (make-instance '%s))\n", v, cn)
 	}
 	res := lispsim.Eval(lispsim.Read(b.String()), w.scope)
 	if res.Cond != "" {
@@ -643,7 +735,7 @@ func newWorldRaw(arity int) *world {
 }
 
 func (w *world) source(op Op) string {
-	params := []string{"a", "b"}
+	params := []string{"a", "b", "c"}
 	switch op.K {
 	case "def":
 		var ll []string
@@ -692,7 +784,7 @@ func (w *world) source(op Op) string {
 			as = append(as, builtinVals[a])
 			continue
 		}
-		if a == nClasses {
+		if a == nClasses && !w.lattice {
 			as = append(as, "nil")
 			continue
 		}
@@ -766,8 +858,7 @@ func (e *engine) Execute(raw json.RawMessage) (vd harness.Verdict) {
 	vd.Faults = map[string]int{}
 	vd.Probes = map[string]int{}
 	builtinOnce.Do(builtinInit)
-	w := newWorld(c.Arity)
-	w.builtin = c.World == "builtin"
+	w := newWorld(c.Arity, c.World)
 	// compile every operation before the run
 	codes := make([][]slip.Code, len(c.Tasks))
 	for ti, ops := range c.Tasks {
@@ -898,13 +989,21 @@ func (e *engine) Execute(raw json.RawMessage) (vd harness.Verdict) {
 		qs.Run(func() {
 			id := qs.CurID()
 			var tuples [][]int
-			nArg := nClasses
-			if w.builtin {
-				nArg = len(builtinVals)
-			}
+			_, nArg := worldSize(c.World)
 			if c.Arity == 1 {
 				for a := 0; a < nArg; a++ {
 					tuples = append(tuples, []int{a})
+				}
+			} else if c.Arity == 3 {
+				// a sample of the triples, the same for every run of the case
+				for a := 0; a < nArg; a++ {
+					for b := 0; b < nArg; b++ {
+						for d := 0; d < nArg; d++ {
+							if nArg*nArg*nArg <= 64 && (a+b+d)%2 == 0 || nArg*nArg*nArg > 64 && (a+2*b+3*d)%(nArg+1) == 0 {
+								tuples = append(tuples, []int{a, b, d})
+							}
+						}
+					}
 				}
 			} else {
 				for a := 0; a < nArg; a++ {
@@ -930,7 +1029,7 @@ func (e *engine) Execute(raw json.RawMessage) (vd harness.Verdict) {
 		state := ""
 		changed := false
 		for _, r := range append(recs, quiet...) {
-			ok, ns, why := step(state, r.op, r.out, c.World == "builtin")
+			ok, ns, why := step(state, r.op, r.out, c.World)
 			if !ok {
 				pin()
 				vd.V = viol("dispatch-differs", "after %s: %s: %s", historyBefore(recs, r), showOp(r.op), why)
@@ -961,7 +1060,7 @@ func (e *engine) Execute(raw json.RawMessage) (vd harness.Verdict) {
 		model := porcupine.Model{
 			Init: func() any { return "" },
 			Step: func(state, in, out any) (bool, any) {
-				ok, ns, _ := step(state.(string), in.(Op), out.(output), c.World == "builtin")
+				ok, ns, _ := step(state.(string), in.(Op), out.(output), c.World)
 				return ok, ns
 			},
 			Equal: func(a, b any) bool { return a.(string) == b.(string) },
@@ -1090,18 +1189,18 @@ func (e *engine) Shrink(raw json.RawMessage) (out []json.RawMessage) {
 			}
 		}
 	}
-	if c.Arity == 2 {
-		// try the 1-argument projection
+	if c.Arity >= 2 {
+		// try the projection to one argument less
 		n := clone()
-		n.Arity = 1
+		n.Arity = c.Arity - 1
 		for ti := range n.Tasks {
 			for oi := range n.Tasks[ti] {
 				op := &n.Tasks[ti][oi]
-				if len(op.Specs) == 2 {
-					op.Specs = op.Specs[:1]
+				if len(op.Specs) == c.Arity {
+					op.Specs = op.Specs[:n.Arity]
 				}
-				if len(op.Args) == 2 {
-					op.Args = op.Args[:1]
+				if len(op.Args) == c.Arity {
+					op.Args = op.Args[:n.Arity]
 				}
 			}
 		}
